@@ -42,7 +42,14 @@ Part 3.  `relaxOk_of_subtrees`: (T) + (S) + the pivot hypothesis give `RelaxOk`.
 `c ∈ [j..k]`: `r` and `c` both lie on the chain of ancestors of the first column of row `r`, so `r` is a
 descendant of `c`, hence of `k`, hence `j ≤ r`.
 
-SymmetricMode (`heap_relax_snode` on the etree of `A + Aᵀ`) is NOT covered.
+SymmetricMode.  Nothing above needs a postordered tree: `relaxOk_of_subtrees` asks for heap order, `ShareDesc`
+and "every recorded supernode is a whole subtree".  In SymmetricMode `sp_preorder` returns the column
+elimination tree without postordering and `heap_relax_snode` records whole subtrees of it
+(`heapRelaxSnode_ranges`, Props/C10.lean), so the same theorem applies (Props/C03.lean, `…_sym`).
+Part 4 is the variant for a tree that only knows the ENTRIES (`EntryDesc`: an entry `(r,c)` above the diagonal
+makes `c` an ancestor of `r` — true of the elimination tree of `A + Aᵀ`, `entryDesc_symetree`): it gives
+`RelaxOk` when the rows are not permuted (`relaxOk_of_entryDesc`), and only then (counterexample in
+Props/C03.lean).
 -/
 namespace Slu.Order
 
@@ -189,6 +196,33 @@ theorem shareDesc_relabel {n : Nat} {col col' : Nat → List Nat} {et et' : Arra
   · have := desc_le hheap' (desc_relabel hq hrel (h b a hab ha ⟨r, hr2, hr1⟩))
     omega
 
+/-! ### Part 4 (trees): the elimination tree of `A + Aᵀ` -/
+
+/-- `sp_symetree` on a structurally symmetric pattern is the elimination tree of its graph -/
+theorem symetree_isEtree (n : Nat) (col : Nat → List Nat)
+    (hsym : ∀ i j, i < n → j < n → i ∈ col j → j ∈ col i) :
+    IsEtree (SymE n col) n (symetree n col) := by
+  intro v hv
+  rw [symetree_eq_etreeOfGraph n col hsym]
+  exact (etreeOfGraph_least (E := SymE n col)
+    (fun a b h => ⟨h.2.1, h.1, h.2.2.1.symm, h.2.2.2.symm⟩) (fun a b h => h.2.2.1) n
+    (symAdj n col) (symAdj_sq n col) (symAdj_get n col)).2 v hv
+
+/-- what a tree computed from the entries alone knows: an entry `(r, c)` above the diagonal makes `c` an
+ancestor of `r` -/
+def EntryDesc (n : Nat) (cols : Nat → List Nat) (et : Array Nat) : Prop :=
+  ∀ c, c < n → ∀ r ∈ cols c, r < c → Desc n et r c
+
+/-- the elimination tree of a symmetric pattern `col` has `EntryDesc` for every pattern `cols` whose entries
+above the diagonal are entries of `col` -/
+theorem entryDesc_symetree (n : Nat) (col cols : Nat → List Nat)
+    (hsym : ∀ i j, i < n → j < n → i ∈ col j → j ∈ col i)
+    (hsub : ∀ c, c < n → ∀ r ∈ cols c, r < c → r ∈ col c) : EntryDesc n cols (symetree n col) := by
+  intro c hc r hr hrc
+  exact desc_of_walk (E := SymE n col) (fun a b h => ⟨h.2.1, h.1, h.2.2.1.symm, h.2.2.2.symm⟩)
+    (symetree_isEtree n col hsym) _ r c rfl hrc hc
+    (T.edge ⟨by omega, hc, by omega, Or.inl (hsub c hc r hr hrc)⟩)
+
 end Slu.Order
 
 namespace Slu.Symb
@@ -293,6 +327,26 @@ theorem relaxOk_of_subtrees {n : Nat} {cols : Nat → List Nat} {et : Array Nat}
     have g3 : Desc n et r c := desc_chain h g1 g2 (Nat.le_of_lt hrc')
     have g4 : Desc n et c k := (hsub c hcn).mpr ⟨hjc, hck'⟩
     exact ((hsub r hrn).mp (desc_trans g3 g4)).1
+
+/-- **Part 4.**  Rows NOT permuted (`cols` is the pattern in its own row numbering, pivots on the diagonal):
+if every entry above the diagonal makes its column an ancestor of its row (`EntryDesc`) and every recorded
+supernode is exactly a subtree, no column of a relaxed supernode `[j..k]` has an entry in a row `< j`.  No
+factorization and no `ShareDesc` is involved: an entry `(r, c)` with `r < c ≤ k` has `r` below `c` below `k`. -/
+theorem relaxOk_of_entryDesc {n : Nat} {cols : Nat → List Nat} {et : Array Nat} {relaxEnd : Nat → Option Nat}
+    (hs : EntryDesc n cols et)
+    (hre : ∀ j k, relaxEnd j = some k → j ≤ k ∧ k < n ∧ ∀ u, u < n → (Desc n et u k ↔ j ≤ u ∧ u ≤ k)) :
+    RelaxOk n cols relaxEnd := by
+  intro j k hjk c hjc hck r hr
+  obtain ⟨hjk', hkn, hsub⟩ := hre j k hjk
+  have hck' : c ≤ k := by
+    have : max j (min k (n - 1)) = k := by omega
+    omega
+  have hcn : c < n := by omega
+  by_cases hrc : c ≤ r
+  · omega
+  · have g3 : Desc n et r c := hs c hcn r hr (by omega)
+    have g4 : Desc n et c k := (hsub c hcn).mpr ⟨hjc, hck'⟩
+    exact ((hsub r (by omega)).mp (desc_trans g3 g4)).1
 
 /-! ### the pivot hypothesis from an exact factorization -/
 
